@@ -237,13 +237,13 @@ const FIXED: [&str; 16] = [
 
 pub fn run(ctx: &Ctx) -> PropResult {
     let mut wls = vec![];
-    wls.push(Workload::cases("histories_fixed_schedules", ctx.n(6_000, 500_000), |rec, idx, rng| {
+    wls.push(Workload::cases("histories_fixed_schedules", ctx.count(6_000, 500_000), |rec, idx, rng| {
         let expr = FIXED[(idx % FIXED.len() as u64) as usize];
         if let Spec::Accept(sets) = cron_spec::parse(expr) {
             run_history(rec, rng, expr, &sets);
         }
     }));
-    wls.push(Workload::cases("histories_generated_schedules", ctx.n(14_000, 1_500_000), |rec, _, rng| {
+    wls.push(Workload::cases("histories_generated_schedules", ctx.count(14_000, 1_500_000), |rec, _, rng| {
         let expr = gen_expression(rng);
         if let Spec::Accept(sets) = cron_spec::parse(&expr) {
             run_history(rec, rng, &expr, &sets);
